@@ -4,6 +4,7 @@ package resolver
 
 import (
 	"context"
+	"net"
 	"time"
 
 	"github.com/miekg/dns"
@@ -146,4 +147,27 @@ func VerifC11LookupV4Nss(r *Resolver, ctx context.Context, child string, hosts [
 	servers = len(auth.List)
 	auth.RUnlock()
 	return servers, err
+}
+
+// VerifC11DialerIndex runs the REAL Resolver.newDialer for a request with the
+// given client message id on the TCP / UDP leg and reports which configured
+// outbound address it bound (index into outboundIPv4; -1: none configured).
+func VerifC11DialerIndex(r *Resolver, reqid uint16, proto string) (index, configured int) {
+	ctx, cancel := context.WithTimeout(context.Background(), time.Second)
+	defer cancel()
+	d := r.newDialer(ctx, &resolveState{requestID: reqid}, proto, authority.IPv4)
+	var ip net.IP
+	switch a := d.LocalAddr.(type) {
+	case *net.TCPAddr:
+		ip = a.IP
+	case *net.UDPAddr:
+		ip = a.IP
+	}
+	index = -1
+	for i, x := range r.outboundIPv4 {
+		if ip != nil && x.Equal(ip) {
+			index = i
+		}
+	}
+	return index, len(r.outboundIPv4)
 }
